@@ -102,6 +102,20 @@ def inplace_ops_on_views(np, d):
 
 
 @case
+def tobytes_as_a_cache_key(np, d):
+    a = np.array(d["v7"])
+    b = np.array(d["v7"])
+    c = np.array(d["v7"])
+    c[5] = c[5] + 1.0
+    whole = (a.tobytes() == b.tobytes(), a.tobytes() == c.tobytes(), hash(a.tobytes()) == hash(b.tobytes()))
+    # element-aligned slices of the bytes select elements (8 bytes per float64)
+    part = (a.tobytes()[24:56] == b.tobytes()[24:56], a.tobytes()[24:56] == c.tobytes()[24:56], a.tobytes()[:24] == c.tobytes()[:24],
+            len(a.tobytes()), len(a.tobytes()[24:56]), a[3:].tobytes() == a.tobytes()[24:], (a.tobytes()[:8] + a.tobytes()[8:]) == a.tobytes())
+    memo = {a.tobytes()[24:56]: 1}
+    return whole, part, (b.tobytes()[24:56] in memo, c.tobytes()[24:56] in memo)
+
+
+@case
 def dot_variants(np, d):
     A, B, v, w = np.array(d["m33"]), np.array(d["m34"]), np.array(d["v3"]), np.array(d["v4"])
     return np.dot(A, B), np.dot(v, A), np.dot(A, v), np.dot(v, v), np.dot(np.dot(np.transpose(v), A), v), np.dot(np.transpose(B), A), A @ B
